@@ -158,6 +158,27 @@ theorem skip_is_safe (rm : Nat → Bool) (max : Nat) (cache l : List SChange) (h
 example : (nextBatch (fun x => x == 1 || x == 2) 11 [⟨1, [], 5⟩, ⟨2, [1], 5⟩, ⟨3, [1], 5⟩, ⟨4, [2, 3], 5⟩]).1
     = ⟨[⟨3, [1], 5⟩, ⟨4, [2, 3], 5⟩], [4]⟩ := by decide
 
+/-! ### a responder that keeps changing while it streams
+
+`batchesI inCache removed max ins` is the `NewResponse` loop over the responder's CURRENT stored sequence, an
+adversary `ins` storing further changes (not in the iterator's cache) before every `NextBatch` call. -/
+
+/-- **interleaving_invisible**: changes the responder stores after the loader was built - before or between the
+`NextBatch` calls - never show: the batches (changes and announced heads) are exactly those of the quiescent loader on
+the cached sequence.  In particular they are never announced as heads (`heads_consistent` keeps holding), never sent,
+and do not shift a batch boundary. -/
+theorem interleaving_invisible (inCache removed : Nat → Bool) (max : Nat) (ins : Nat → List SChange → List SChange)
+    (hins : ∀ i l, (ins i l).filter (fun c => inCache c.id) = l.filter (fun c => inCache c.id))
+    (fuel : Nat) (l : List SChange) :
+    batchesI inCache removed max ins fuel 0 l = batches removed max fuel (l.filter (fun c => inCache c.id)) :=
+  batchesI_eq inCache removed max ins hins fuel 0 l
+
+/-- a new head `9` stored before the first call and `8` before the second one: same batches as without them -/
+example :
+    batchesI (fun x => x ≤ 4) (fun _ => false) 11 (fun i l => if i = 0 then l ++ [⟨9, [4], 5⟩] else ⟨8, [9], 5⟩ :: l) 5 0
+      [⟨1, [], 5⟩, ⟨2, [1], 5⟩, ⟨3, [1], 5⟩, ⟨4, [2, 3], 5⟩]
+    = batches (fun _ => false) 11 5 [⟨1, [], 5⟩, ⟨2, [1], 5⟩, ⟨3, [1], 5⟩, ⟨4, [2, 3], 5⟩] := by decide
+
 /-! ### applying the batches
 
 `cs` lists the responder's stored changes from the common snapshot on, each with its size; `toS` is its stored
